@@ -1,14 +1,35 @@
 """C13 -- the facade behaves exactly as the concrete interpreter; ISO codes resolve (DESIGN.md section 3, C13)."""
+import json
 import vlib
-from checks import streams
+from checks import streams, c15
 
 
 def run(ctx):
     vlib.model_check(ctx, "MC_Facade", "MC_Facade.cfg", workers=2, heap="2g")
     q = ctx.quick()
     prm = dict(langs=vlib.LANGS, randn=40 if q else 600, seed=ctx.seed % 100000, thrs=["0", "10"],
-               want=["t2d", "rew", "toks", "occs"], vias=["concrete", "facade", "lookup"])
+               want=["t2d", "rew", "toks", "occs", "iter", "iter1"], vias=["concrete", "facade", "lookup"])
     res, obs, h = streams.gen_exec_validate(ctx, "C13", prm, module="Val_Calls", gen="Gen_Facade", mode="text", min_lines=1500)
+    # token streams carrying the two hints (voice pauses, not-a-number marks) through the three access paths: the scanner
+    # consults the interpreter's separator / linking predicates in ways plain text never triggers
+    prm2 = c15.params(ctx, ["batch", "iter"])
+    prm2["randn"] = 400 if q else 6000
+    pj = ctx.path("params_scan.json")
+    json.dump(prm2, open(pj, "w"), ensure_ascii=False)
+    req2, _ = vlib.generate(ctx, "Gen_Scan", None, "req_scan0.ndjson", env={"PARAMS": pj})
+    rows = []
+    for r in vlib.read_ndjson(req2):
+        r["vias"] = prm["vias"]
+        r["kind"] = "scan"
+        r["i"] = 600000000 + r["i"]
+        rows.append(r)
+    req3 = vlib.write_ndjson(ctx.path("req_scan.ndjson"), rows)
+    obs1 = ctx.path("obs_text.ndjson")
+    import os
+    os.rename(obs, obs1)
+    obs = obs1
+    res2, obs2, h2 = streams.exec_validate(ctx, "C13", req3, module="Val_Calls", mode="scan", min_lines=1500, drift=False)
+    ctx.extra["hinted_streams"] = len(rows)
     ctx.evaluations *= 3
     n = 0
     nt = 0
@@ -23,7 +44,8 @@ def run(ctx):
     ctx.nontrivial = nt
     ctx.rule = ("for each built-in language L: the words, ambiguous phrases and seeded texts of EVERY language through L's concrete type, the "
                 "facade and the ISO lookup (validate, rewrite, tokens+annotation, search), word-by-word apply sequences with the builder "
-                "projection (flags, marker, frozen, separator and linking predicates), and lookups of 13 non-codes; non-trivial = the concrete "
+                "projection (flags, marker, frozen, separator and linking predicates), token streams with every placement of the two hints (batch and "
+                "lazy search), and lookups of 13 non-codes; non-trivial = the concrete "
                 "result contains a number / an accepted word, or the case is a non-code lookup")
     ctx.assumptions += ["case and whitespace variants of the seven codes and other real ISO codes are outside the domain of the lookup clause"]
     return vlib.finish(ctx)
